@@ -174,3 +174,25 @@ package annotation
 //@   invariant loop 2: !delT
 //@   invariant loop 3: (has(labelElems, op.Target) <==> stays) && !delT
 //@   assert at "if err := batch.Commit(); err != nil {": stays <==> !delT
+
+// ---- label sync: merge (C13) ----
+// Every merged body that has elements gets its label entry deleted and all of its elements appended to the
+// target's list (none dropped: the list grows by exactly the number of elements read), and the target's
+// entry is written and committed exactly when something was appended.
+//@ func Data.mergeLabels
+//@   prop C13
+//@   requires d != nil
+//@   safety_off
+//@   calls_havoc
+//@   modifies *
+//@   ghost n0 int = 0
+//@   ghostset at "elemsAdded := 0": n0 = len(targetElems)
+//@   ghost anyDel bool = false
+//@   ghostset at "batch.Delete(tk)": anyDel = true
+//@   ghost put bool = false
+//@   ghostset at "batch.Put(targetTk, val)": put = true
+//@   invariant loop 1: len(targetElems) == n0 + elemsAdded
+//@   invariant loop 1: elemsAdded >= 0 && (elemsAdded > 0 <==> anyDel) && !put
+//@   assert at "elemsAdded += len(elems)": len(elems) > 0
+//@   assert at "batch.Put(targetTk, val)": len(targetElems) == n0 + elemsAdded && elemsAdded > 0
+//@   assert at "if err := batch.Commit(); err != nil {": put
